@@ -110,6 +110,7 @@ struct qb_log_target * qb_log_target_get(int32_t pos);
 
 int32_t qb_log_syslog_open(struct qb_log_target *t);
 int32_t qb_log_stderr_open(struct qb_log_target *t);
+int32_t qb_log_file_enable(struct qb_log_target *t);
 int32_t qb_log_blackbox_open(struct qb_log_target *t);
 
 void qb_log_thread_stop(void);
